@@ -38,6 +38,11 @@ pub enum Edit {
     Rename,
     MoveDir,
     AddChunkFile,
+    /// the source goes back to what it was before the previous edit (A -> B -> A): every tree of A
+    /// is already stored, but the parent snapshot is B
+    Revert,
+    /// only the metadata of directory `d` itself changes (its listing, hence its tree, stays)
+    TouchDir,
     /// add a file whose bytes equal the serialised tree of directory `d` (default chunker only)
     AddTreeCopy,
 }
@@ -48,6 +53,8 @@ pub struct St {
     tree: Entry,
     n: usize,
     last_tree_id: Option<String>,
+    /// the source before the last edit
+    prev: Option<Entry>,
 }
 
 pub struct C07 {
@@ -82,7 +89,7 @@ impl C07 {
         cfg.treepack_size = Some(700);
         cfg.treepack_growfactor = Some(0);
         _ = env.init_with(cfg).expect("init");
-        let s0 = St { store: env.store(), tree, n: 0, last_tree_id: None };
+        let s0 = St { store: env.store(), tree, n: 0, last_tree_id: None, prev: None };
         // the initial backup (checked like every other step)
         self.step(&s0, &Edit::None, &mut Report::default()).expect("initial backup")
     }
@@ -157,7 +164,11 @@ impl SeqModel for C07 {
             Edit::Rename,
             Edit::MoveDir,
             Edit::AddChunkFile,
+            Edit::TouchDir,
         ];
+        if s.prev.is_some() {
+            v.push(Edit::Revert);
+        }
         if !self.tiny {
             v.push(Edit::AddTreeCopy);
         }
@@ -171,7 +182,14 @@ impl SeqModel for C07 {
     fn canon(&self, s: &St) -> String {
         // the repository content is a function of the history of sources; blobs are what matters
         let (d, t) = data_index(&self.raw, &s.store);
-        format!("{}|{}|{}|{}", h64(&format!("{:?}", model_tree("r", &s.tree))), h64(&d), h64(&t), s.n.min(1))
+        format!(
+            "{}|{}|{}|{}|{}",
+            h64(&format!("{:?}", model_tree("r", &s.tree))),
+            h64(&d),
+            h64(&t),
+            s.n.min(1),
+            s.prev.as_ref().map_or(String::new(), |p| h64(&format!("{:?}", model_tree("r", p))))
+        )
     }
 
     fn invariant(&self, _s: &St, _rep: &mut Report) -> Result<(), Viol> {
@@ -180,6 +198,7 @@ impl SeqModel for C07 {
 
     fn step(&self, s: &St, a: &Edit, rep: &mut Report) -> Result<St, Viol> {
         let mut n = s.clone();
+        n.prev = Some(s.tree.clone());
         let mt = T0 + 100 + s.n as i64;
         let cur = big(&s.tree);
         let cuts: Vec<usize> = ref_chunks(&cur, &self.params(), &mut HashMap::new())
@@ -194,6 +213,17 @@ impl SeqModel for C07 {
         let mut edit_offset: Option<usize> = None;
         match a {
             Edit::None => {}
+            Edit::Revert => {
+                if let Some(p) = &s.prev {
+                    n.tree = p.clone();
+                }
+            }
+            Edit::TouchDir => {
+                if let Some(d) = n.tree.get_mut("d") {
+                    d.meta.mtime = Some(i128::from(mt) * 1_000_000_000);
+                    d.meta.ctime = d.meta.mtime;
+                }
+            }
             Edit::Touch => {
                 let mut e = s.tree.get("a/small").cloned().unwrap_or_else(|| Entry::file(lcg(2, 90), mt));
                 e.meta.mtime = Some(i128::from(mt) * 1_000_000_000);
@@ -407,7 +437,7 @@ pub fn run(args: &Args, rep: &mut Report) {
     let quick = args.quick();
     let depth = if quick { 3 } else { 4 };
     _ = (Bytes::new(), hex_id, open_json, BTreeMap::<u8, u8>::new());
-    rep.set_meta("bounds", json!(format!("BFS depth {depth} (after an initial backup) over 12 edits from 3 base sources with the tiny rabin chunker (64/64/256), depth {} with the default chunker incl. files equal to a serialised tree", depth - 1)));
+    rep.set_meta("bounds", json!(format!("BFS depth {depth} (after an initial backup) over 14 edits (incl. reverting the previous edit and touching a directory) from 3 base sources with the tiny rabin chunker (64/64/256), depth {} with the default chunker incl. files equal to a serialised tree", depth - 1)));
     let m = C07 { raw: raw.clone(), tiny: true };
     let m2 = C07 { raw, tiny: false };
     if let Some(p) = &args.replay {
